@@ -79,7 +79,7 @@ impl LayoutCfg {
 }
 
 const TRIVIA_WS: [&str; 7] = [" ", "\n", "\t", "\r\n", "  ", "\r", "\n\n"];
-const TRIVIA_COMMENT: [&str; 6] = [";c\n", ";\n", "; λ comment (] \" #\n", ";;; x\r\n", ";a\n ;b\n", ";\t\n"];
+const TRIVIA_COMMENT: [&str; 10] = [";c\n", ";\n", "; λ comment (] \" #\n", ";;; x\r\n", ";a\n ;b\n", ";\t\n", ";x\u{0}y\n", ";\u{1a}\u{7f}\r\u{1}z\n", ";\u{feff}\u{2028}\u{85}|#\n", "; #| ( \\\n"];
 
 pub struct Builder<'a, 'b> {
     pub out: String,
